@@ -19,6 +19,8 @@ package keeper
 //@ ghost auth.bal (Array Bytes Coins)
 //@ ghost auth.has (Array Bytes Bool)
 //@ ghost auth.supply Coins
+// auth.total[d]: the sum over every stored account of its amount of denomination d (follows every account write)
+//@ ghost auth.total (Array Str Int)
 
 // Bank representation invariant: absent accounts hold nothing, every balance is a valid
 // (non-negative) coin set. Assumed at entry of every bank function, proved at its exit, and
@@ -43,8 +45,9 @@ package keeper
 //@ assumed func (k Keeper) SetAccount(ctx sdk.Ctx, acc exported.Account)
 //@   mode value
 //@   requires acc != nil
-//@   modifies auth.bal[acct.addr[acc]], auth.has[acct.addr[acc]]
+//@   modifies auth.bal[acct.addr[acc]], auth.has[acct.addr[acc]], auth.total
 //@   ensures auth.bal[acct.addr[acc]] == acct.coins[acc] && auth.has[acct.addr[acc]]
+//@   ensures [total] forall d Str :: auth.total[d] == old(auth.total[d]) - amt(old(auth.bal[acct.addr[acc]]), d) + amt(acct.coins[acc], d)
 //@
 //@ assumed func (k Keeper) NewAccountWithAddress(ctx sdk.Ctx, addr sdk.Address) (acc exported.Account, err error)
 //@   mode value
@@ -114,28 +117,31 @@ package keeper
 //@
 //@ func (k Keeper) SetCoins(ctx sdk.Ctx, addr sdk.Address, amt sdk.Coins) (err sdk.Error)
 //@   props C02
-//@   modifies acct.id, acct.next, acct.coins, acct.addr, auth.bal[addr], auth.has[addr]
+//@   modifies acct.id, acct.next, acct.coins, acct.addr, auth.bal[addr], auth.has[addr], auth.total
 //@   dead ret2 ret3
 //@   ensures [success] valid(amt) ==> err == nil
 //@   ensures err == nil ==> auth.bal[addr] == amt && auth.has[addr] && valid(amt)
 //@   ensures err != nil ==> auth.bal[addr] == old(auth.bal[addr]) && auth.has[addr] == old(auth.has[addr])
+//@   ensures [total] forall d Str :: auth.total[d] == old(auth.total[d]) + amt(auth.bal[addr], d) - amt(old(auth.bal[addr]), d)
 //@
 //@ func (k Keeper) SubtractCoins(ctx sdk.Ctx, addr sdk.Address, amt sdk.Coins) (r sdk.Coins, err sdk.Error)
 //@   props C02
 //@   uses bankinv
-//@   modifies acct.id, acct.next, acct.coins, acct.addr, auth.bal[addr], auth.has[addr]
+//@   modifies acct.id, acct.next, acct.coins, acct.addr, auth.bal[addr], auth.has[addr], auth.total
 //@   ensures [success] valid(amt) && (forall d Str :: amt(old(auth.bal[addr]), d) >= amt(amt, d)) ==> err == nil
 //@   ensures err == nil ==> valid(amt) && (forall d Str :: amt(old(auth.bal[addr]), d) >= amt(amt, d))
 //@   ensures err == nil ==> (forall d Str :: amt(auth.bal[addr], d) == amt(old(auth.bal[addr]), d) - amt(amt, d)) && valid(auth.bal[addr]) && auth.has[addr]
 //@   ensures err != nil ==> auth.bal[addr] == old(auth.bal[addr]) && auth.has[addr] == old(auth.has[addr])
+//@   ensures [total] forall d Str :: auth.total[d] == old(auth.total[d]) + amt(auth.bal[addr], d) - amt(old(auth.bal[addr]), d)
 //@
 //@ func (k Keeper) AddCoins(ctx sdk.Ctx, addr sdk.Address, amt sdk.Coins) (r sdk.Coins, err sdk.Error)
 //@   props C02
 //@   uses bankinv
-//@   modifies acct.id, acct.next, acct.coins, acct.addr, auth.bal[addr], auth.has[addr]
+//@   modifies acct.id, acct.next, acct.coins, acct.addr, auth.bal[addr], auth.has[addr], auth.total
 //@   ensures [success] valid(amt) ==> err == nil
 //@   ensures err == nil ==> valid(amt) && (forall d Str :: amt(auth.bal[addr], d) == amt(old(auth.bal[addr]), d) + amt(amt, d)) && valid(auth.bal[addr]) && auth.has[addr]
 //@   ensures err != nil ==> auth.bal[addr] == old(auth.bal[addr]) && auth.has[addr] == old(auth.has[addr])
+//@   ensures [total] forall d Str :: auth.total[d] == old(auth.total[d]) + amt(auth.bal[addr], d) - amt(old(auth.bal[addr]), d)
 //@
 // SendCoins: a successful send moves exactly amt (nothing when sender == recipient); a failed
 // send that got past the debit can only fail while creating the recipient account.
@@ -154,22 +160,26 @@ package keeper
 //@ func (k Keeper) MintCoins(ctx sdk.Ctx, moduleName string, amt sdk.Coins) (err sdk.Error)
 //@   props C02
 //@   uses bankinv
-//@   modifies acct.id, acct.next, acct.coins, acct.addr, auth.bal[modaddr(moduleName)], auth.has[modaddr(moduleName)], auth.supply
+//@   modifies acct.id, acct.next, acct.coins, acct.addr, auth.bal[modaddr(moduleName)], auth.has[modaddr(moduleName)], auth.supply, auth.total
 //@   ensures [success] modreg(moduleName) && modperm(moduleName, "minter") && valid(amt) ==> err == nil
 //@   ensures err == nil ==> modreg(moduleName) && modperm(moduleName, "minter")
 //@   ensures err == nil ==> (forall d Str :: amt(auth.bal[modaddr(moduleName)], d) == amt(old(auth.bal[modaddr(moduleName)]), d) + amt(amt, d))
 //@   ensures err == nil ==> (forall d Str :: amt(auth.supply, d) == amt(old(auth.supply), d) + amt(amt, d))
 //@   ensures err != nil ==> auth.bal[modaddr(moduleName)] == old(auth.bal[modaddr(moduleName)]) && auth.supply == old(auth.supply)
+// C02 proper: the recorded supply and the sum of all balances move together - their difference is preserved
+//@   ensures [conserved] forall d Str :: amt(auth.supply, d) - auth.total[d] == amt(old(auth.supply), d) - old(auth.total[d])
 //@
 //@ func (k Keeper) BurnCoins(ctx sdk.Ctx, moduleName string, amt sdk.Coins) (err sdk.Error)
 //@   props C02
 //@   uses bankinv
-//@   modifies acct.id, acct.next, acct.coins, acct.addr, auth.bal[modaddr(moduleName)], auth.has[modaddr(moduleName)], auth.supply
+//@   modifies acct.id, acct.next, acct.coins, acct.addr, auth.bal[modaddr(moduleName)], auth.has[modaddr(moduleName)], auth.supply, auth.total
 //@   ensures [success] modreg(moduleName) && modperm(moduleName, "burner") && valid(amt) && (forall d Str :: amt(old(auth.bal[modaddr(moduleName)]), d) >= amt(amt, d)) ==> err == nil
 //@   ensures err == nil ==> modreg(moduleName) && modperm(moduleName, "burner")
 //@   ensures err == nil ==> (forall d Str :: amt(auth.bal[modaddr(moduleName)], d) == amt(old(auth.bal[modaddr(moduleName)]), d) - amt(amt, d))
 //@   ensures err == nil ==> (forall d Str :: amt(auth.supply, d) == amt(old(auth.supply), d) - amt(amt, d))
 //@   ensures err != nil ==> auth.bal[modaddr(moduleName)] == old(auth.bal[modaddr(moduleName)]) && auth.supply == old(auth.supply)
+// C02 proper: the recorded supply and the sum of all balances move together - their difference is preserved
+//@   ensures [conserved] forall d Str :: amt(auth.supply, d) - auth.total[d] == amt(old(auth.supply), d) - old(auth.total[d])
 //@
 //@ func (k Keeper) SendCoinsFromModuleToAccount(ctx sdk.Ctx, senderModule string, recipientAddr sdk.Address, amt sdk.Coins) (err sdk.Error)
 //@   props C02
